@@ -506,6 +506,29 @@ def check_use(rep, repo, f):
     n2 = S(g.params[1])
     rep.check(len(dc.args) >= 2 and dc.args[0] == n2 and dc.args[1] == S(g.params[5]), 'C17.R5', g.where, 'it is computed for the number of rankable agents and the requested skew',
               got=[show(a) for a in dc.args], want='(%s, %s)' % (g.params[1], g.params[5]), construct='distribution arguments %s' % [show(a) for a in dc.args])
+    # ... and every generator hands over the skew the user asked for (keyword calls are positional after the loader's
+    # normalisation; an omitted argument means the parameter's default, i.e. a fixed skew whatever -skew says)
+    skew_pos = g.params.index(g.params[5])
+    sites = 0
+    for cls_ in ('Generator_ha_sm_hr', 'Generator_spa'):
+        for m_ in repo.classes.get(cls_, {}).values():
+            for n_ in ast.walk(m_.node):
+                if isinstance(n_, ast.Call) and isinstance(n_.func, ast.Name) and n_.func.id == g.name:
+                    sites += 1
+                    kw = {k.arg: k.value for k in n_.keywords}
+                    arg = n_.args[skew_pos] if len(n_.args) > skew_pos else kw.get(g.params[5])
+                    txt = ast.unparse(arg) if arg is not None else None
+                    ok = arg is not None and isinstance(arg, ast.Attribute) and arg.attr == 'skew'
+                    if arg is not None and isinstance(arg, ast.Name):
+                        vals = [a_.value for a_ in ast.walk(m_.node) if isinstance(a_, ast.Assign) and any(isinstance(t_, ast.Name) and t_.id == arg.id for t_ in a_.targets)]
+                        ok = bool(vals) and all(isinstance(v_, ast.Attribute) and v_.attr == 'skew' for v_ in vals)
+                    if not ok and arg is not None and not isinstance(arg, (ast.Constant, ast.Attribute)):
+                        rep.inconclusive('C17.R5', m_.where, '%s passes the requested skew to the list-drawing function' % cls_, got=txt, loc='%s:%d' % (m_.relpath, n_.lineno))
+                        continue
+                    rep.check(ok, 'C17.R5', m_.where, '%s passes the requested skew to the list-drawing function' % cls_,
+                              got=txt if txt is not None else 'argument omitted: the default %s is used' % (ast.unparse(g.node.args.defaults[skew_pos - len(g.params)]) if g.node.args.defaults and len(g.node.args.defaults) >= len(g.params) - skew_pos else '?'),
+                              want='args.skew', construct='%s skew argument %s' % (cls_, txt), loc='%s:%d' % (m_.relpath, n_.lineno))
+    rep.check(sites >= 2, 'C17.R5', g.where, 'both generators draw their first-side lists with this function', got='%d call sites' % sites, want='>= 2', construct='list-drawing call sites')
     draws = []
     for e, ctx in iter_effects(effs):
         for k_, v_ in e.__dict__.items():
